@@ -15,6 +15,48 @@ func init() {
 	stages["parsetotal"] = stageParseTotal
 }
 
+// checkTokenPositions is the part of C03 that needs no token-level oracle: whatever the input, the
+// offsets of the tokens increase, lie inside the input, EOF is at its end (or at a NUL character, where
+// the lexer stops), and every line and column is the one of the character at the token's offset.
+func checkTokenPositions(src string) string {
+	runes := []rune(src)
+	lx := lexer.New(src)
+	prev := -1
+	hasNUL := false
+	for _, r := range runes {
+		if r == 0 {
+			hasNUL = true
+		}
+	}
+	for i := 0; i < 4*len(runes)+8; i++ {
+		t := lx.Next()
+		if t.Offset < 0 || t.Offset > len(runes) {
+			return fmt.Sprintf("token %s: offset %d is outside the input of %d characters", t.Type, t.Offset, len(runes))
+		}
+		if t.Offset <= prev {
+			return fmt.Sprintf("token %s: offset %d does not advance (previous token at %d)", t.Type, t.Offset, prev)
+		}
+		prev = t.Offset
+		line, start := 1, 0
+		for j := 0; j < t.Offset; j++ {
+			if runes[j] == '\n' {
+				line++
+				start = j + 1
+			}
+		}
+		if t.Line != line || t.Col != t.Offset-start+1 {
+			return fmt.Sprintf("token %s at offset %d: line %d column %d, the character is at line %d column %d", t.Type, t.Offset, t.Line, t.Col, line, t.Offset-start+1)
+		}
+		if t.Type == lexer.EOF {
+			if t.Offset != len(runes) && !hasNUL {
+				return fmt.Sprintf("EOF at offset %d, input has %d characters", t.Offset, len(runes))
+			}
+			return ""
+		}
+	}
+	return "lexer does not reach EOF"
+}
+
 // stageLex compares the real lexer's token stream with the one the lexer
 // specification produced for the same input: kind (unless "?"), offset,
 // line and column of every token.
@@ -33,6 +75,9 @@ func stageLex(raw json.RawMessage) Result {
 	}
 	src, _ := decode(c.Inp).(string)
 	obs := map[string]any{"src": src}
+	if d := checkTokenPositions(src); d != "" {
+		return Result{OK: false, Obs: obs, Diff: d}
+	}
 	lx := lexer.New(src)
 	var got []*lexer.Token
 	for i := 0; i < 4*len(src)+8; i++ {
@@ -103,6 +148,9 @@ func stageParseTotal(raw json.RawMessage) Result {
 	}
 	src := pieces(c.Src)
 	obs := map[string]any{"src": src}
+	if d := checkTokenPositions(src); d != "" {
+		return Result{OK: false, Obs: obs, Diff: d}
+	}
 	prog, err := parser.Parse(src, evaluator.BuiltinDecls())
 	if err == nil {
 		if prog == nil {
